@@ -5,6 +5,8 @@ from __future__ import annotations
 import pickle
 
 import dask
+import random
+
 import numpy as np
 from dask.core import flatten
 
@@ -127,6 +129,15 @@ def check_one(g, v, ctx, execute):
 
 def run_one(rng, ctx):
     big = ctx.tier == "thorough"
+    if rng.random() < 0.05:
+        case = {"interop": rng.randrange(10**9)}
+        ctx.current_case = case
+        seen = set()
+        for kind, msg, mech in interop_case(random.Random(case["interop"]), ctx):
+            if mech not in seen:
+                seen.add(mech)
+                ctx.violation(kind, msg, case=case, mech=mech)
+        return
     g = Prog(rng, max_extent=rng.choice([7, 9, 12]) if big else 7, max_size=20000 if big else 4000)
     g.grow(rng.randint(1, 12 if big else 7))
     tally_prog(g, ctx)
@@ -149,6 +160,49 @@ def run_one(rng, ctx):
         report(problems, case, ctx)
 
 
+def interop_case(rng, ctx):
+    """Arrays made with the public from_graph (the interop entry point: blocks already sitting in a graph under somebody
+    else's keys), two of them over ONE layer dict, used alone and together: every graph closed, the caller's dict intact."""
+    import dask_array as da
+    from dask_array.core import from_graph
+
+    n = rng.randint(2, 5)
+    sizes = [rng.randint(1, 3) for _ in range(n)]
+    blocks = [np.arange(s, dtype="f8") + 10 * i for i, s in enumerate(sizes)]
+    layer = {("theirs", i): b for i, b in enumerate(blocks)}
+    before = dict(layer)
+    chunks = (tuple(sizes),)
+    keys = [("theirs", i) for i in range(n)]
+    meta = np.empty((0,), dtype="f8")
+    out = []
+    try:
+        a = from_graph(layer, meta, chunks, keys, "interop-a-" + str(rng.randrange(10**9)))
+        b = from_graph(layer, meta, chunks, keys, "interop-b-" + str(rng.randrange(10**9)))
+        progs = {"a": a, "b": b, "a+b": a + b, "concatenate": da.concatenate([a, b]), "b*2-a": b * 2 - a}
+    except Exception as e:
+        ctx.tab("interop_build_raised", f"{type(e).__name__}:{exc_site(e)}")
+        return out
+    exp = np.concatenate(blocks)
+    want = {"a": exp, "b": exp, "a+b": exp * 2, "concatenate": np.concatenate([exp, exp]), "b*2-a": exp}
+    for label, x in progs.items():
+        for optimize in (True, False):
+            r = check_structure(x, ctx, optimize, execute=True)
+            probs = r[0] if isinstance(r, tuple) else r
+            for kind, msg, mech in probs:
+                out.append((kind, f"from_graph pair over one layer dict, {label}: {msg}", f"interop:{label}:{mech}"))
+        try:
+            got = x.compute()
+            ctx.count("interop_values_compared")
+            if got.shape != want[label].shape or not np.array_equal(got, want[label]):
+                out.append(("interop_values", f"from_graph pair over one layer dict, {label}: computed {got!r}, expected {want[label]!r}", f"interop:{label}:values"))
+        except Exception as e:
+            out.append(("compute_raises", f"from_graph pair, {label}: {short_tb(e)}", f"interop:{label}:raise:{type(e).__name__}:{exc_site(e)}"))
+    if set(layer) != set(before) or any(layer[k] is not before[k] for k in before if k in layer):
+        out.append(("caller_layer_modified", f"the layer dict handed to from_graph was rewritten: keys now {sorted(map(str, layer))[:6]}", "interop:caller_layer_modified"))
+    ctx.count("interop_cases")
+    return out
+
+
 RAISES = ("graph_raises", "execute_raises", "compute_raises")
 
 
@@ -164,6 +218,10 @@ def report(problems, case, ctx):
 
 
 def replay_case(case, ctx):
+    if "interop" in case:
+        for kind, msg, mech in interop_case(random.Random(case["interop"]), ctx):
+            ctx.violation(kind, msg, case=case, mech=mech)
+        return
     try:
         g = Prog.replay(case["steps"])
     except ReplayRefused as e:
